@@ -79,8 +79,10 @@ PeekHeader(sch, cfg, inp, r) ==
   THEN [t |-> "err", r |-> r1,
         e |-> ErrRec("hier", -1, TRUE, h.id, FALSE, <<>>, FALSE, <<>>, r1.stack # <<>>,
                      IF r1.stack # <<>> THEN r1.stack[Len(r1.stack)].id ELSE <<>>)]
-  ELSE IF ~cfg.allowSize /\ ~h.unk /\ Oversized(r1.stack, pos + h.hlen + h.size)
-  THEN [t |-> "err", r |-> r1, e |-> DataErr("oversized", pos, h.id, h.sizeW)]
+  \* (an unknown-size tag has no data size to overrun with, but its header must lie inside the known-size ancestors too;
+  \* the error then carries size 0)
+  ELSE IF ~cfg.allowSize /\ Oversized(r1.stack, pos + h.hlen + (IF h.unk THEN 0 ELSE h.size))
+  THEN [t |-> "err", r |-> r1, e |-> DataErr("oversized", pos, h.id, IF h.unk THEN NatW8(0) ELSE h.sizeW)]
   ELSE IF cfg.hasMax /\ ~h.unk /\ WLt(cfg.max, h.sizeW)
   THEN [t |-> "err", r |-> r1, e |-> DataErr("too_big", pos, h.id, h.sizeW)]
   ELSE [t |-> "ok", r |-> r1, h |-> h, ty |-> ty]
